@@ -522,3 +522,43 @@ func ClosureBinding(fv *ssa.FreeVar) ssa.Value {
 	})
 	return bound
 }
+
+// SameExpr reports structural equality of two SSA values: the same value, equal constants, or the same
+// pure expression over structurally equal operands (field selections, loads, conversions, extracts of one call).
+// Memory effects between the two evaluations are ignored (used inside lock-protected functions for keys).
+func SameExpr(a, b ssa.Value) bool {
+	return sameExpr(a, b, 0)
+}
+
+func sameExpr(a, b ssa.Value, d int) bool {
+	if a == nil || b == nil || d > 10 {
+		return false
+	}
+	a, b = Unwrap(a), Unwrap(b)
+	if a == b {
+		return true
+	}
+	if cellOf(a) != nil && cellOf(a) == cellOf(b) {
+		return true
+	}
+	switch x := a.(type) {
+	case *ssa.Const:
+		return sameConst(a, b)
+	case *ssa.UnOp:
+		y, ok := b.(*ssa.UnOp)
+		return ok && x.Op == y.Op && sameExpr(x.X, y.X, d+1)
+	case *ssa.FieldAddr:
+		y, ok := b.(*ssa.FieldAddr)
+		return ok && x.Field == y.Field && sameExpr(x.X, y.X, d+1)
+	case *ssa.Field:
+		y, ok := b.(*ssa.Field)
+		return ok && x.Field == y.Field && sameExpr(x.X, y.X, d+1)
+	case *ssa.Extract:
+		y, ok := b.(*ssa.Extract)
+		return ok && x.Index == y.Index && x.Tuple == y.Tuple
+	case *ssa.BinOp:
+		y, ok := b.(*ssa.BinOp)
+		return ok && x.Op == y.Op && sameExpr(x.X, y.X, d+1) && sameExpr(x.Y, y.Y, d+1)
+	}
+	return false
+}
